@@ -71,6 +71,18 @@ def check_case(ctx, pm, D, order_seed, tmpdir):
                       case, observed=probs, expected="no difference")
     try:
         im2 = pm.Images()
+        # the reader is not always pristine: its (still empty) header was inspected, or it refused a truncated file before
+        reader = order_seed % 4
+        if reader == 1:
+            im2.header.version_tuple
+            ctx.count("reader-header-inspected-before-load")
+        elif reader == 2:
+            for junk in ("", '{"header": {"version": "0.1"}}', '{"header": {"version": "1.2", "type": "productmd.images"}}'):
+                try:
+                    im2.loads(junk)
+                except Exception:
+                    pass
+            ctx.count("reader-refused-a-truncated-file-before")
         im2.loads(t1)
         cells, comp, problems = F.observe(im2)
         diffs = problems + F.diff_cells(exp_cells, cells)
